@@ -168,92 +168,98 @@ def oracle(case):
         out.cls("text-index")
         return out
     idx_loaded = np.array(las.curves[0].data, dtype=float, copy=True) if len(las.curves) else np.array([])
-    kinds = apply_edits(las, case.get("edits", []))
-    out.cls(*["edit-" + k for k in sorted(kinds)])
-    try:
-        idx = np.asarray(las.curves[0].data, dtype=float) if len(las.curves) else np.array([])
-    except (TypeError, ValueError):
-        out.rejected = True
-        out.cls("text-index")
-        return out
-    shape = "empty" if len(idx) == 0 else "single" if len(idx) == 1 else (
-        "increasing" if np.all(np.diff(idx) > 0) else "decreasing" if np.all(np.diff(idx) < 0) else "irregular")
-    if len(idx) > 2 and shape in ("increasing", "decreasing") and not np.allclose(np.diff(idx), np.diff(idx)[0]):
-        shape += "-uneven"
-    out.cls("index-" + shape)
-    out.nontrivial = bool(kinds) or shape not in ("increasing",)
-    # must STRT/STOP/STEP be refreshed?  (created, or edited, or the file's STOP disagrees with its data)
-    index_edited = (not was_read) or bool(kinds & {"index_shift", "index_reverse", "index_truncate", "index_irregular", "index_inplace"})
+    # rounds: edits applied before each write (a plain case is one round of edits followed by edit-free writes)
+    rounds = case.get("rounds")
+    if rounds is None:
+        rounds = [case.get("edits", [])] + [[] for _ in range(nwrites - 1)]
     stop_disagrees = False
-    if was_read and len(idx):
+    if was_read and len(idx_loaded):
         try:
             stop_disagrees = float(las.well["STOP"].value) != float(idx_loaded[-1])
         except Exception:  # noqa
             stop_disagrees = True
-    if index_edited and was_read and np.array_equal(idx_loaded, idx):
-        index_edited = False  # an edit that changed nothing (compared with my own copy of the index as loaded)
     before0 = snapshot(las)
     vers_before = [x for x in before0["sections"].get("Version", []) if x["orig"].upper() == "VERS"]
-    texts = []
-    before = before0
     wrap_given = opts.get("wrap") is not None
-    for n in range(nwrites):
+    index_ever_edited = not was_read
+    all_kinds = set()
+    prev_text = None
+    INDEX_EDITS = {"index_shift", "index_reverse", "index_truncate", "index_irregular", "index_inplace"}
+    for n, edits in enumerate(rounds):
+        idx_before = np.array(las.curves[0].data, dtype=float, copy=True) if len(las.curves) else np.array([])
+        kinds = apply_edits(las, edits)
+        all_kinds |= kinds
+        idx = np.asarray(las.curves[0].data, dtype=float) if len(las.curves) else np.array([])
+        if kinds & INDEX_EDITS and not (len(idx) == len(idx_before) and np.array_equal(idx, idx_before)):
+            index_ever_edited = True
+        before = snapshot(las)
         t = attempt(build.write_text, las, **opts)
         if is_raised(t):
             if n == 0:
                 out.rejected = True
                 out.cls("unwritable:" + t.type)
                 return out
-            out.fail("second-write-raises|" + t.bucket, "write #%d raised %s after a successful first write\nopts=%r" % (n + 1, t, opts))
+            out.fail("later-write-raises|" + t.bucket, "write #%d raised %s after a successful first write\nopts=%r" % (n + 1, t, opts))
             return out
         after = snapshot(las)
-        compare_snapshots(before, after, wrap_given, out, "first-write" if n == 0 else "repeat-write")
-        if n > 0:
-            # no further in-memory change at all
+        compare_snapshots(before, after, wrap_given, out, "first-write" if n == 0 else "later-write")
+        if n > 0 and not kinds:
+            # nothing was edited since the previous write: same bytes, and no in-memory change at all
             if after != before:
                 out.fail("repeat-write-changes-memory", "write #%d changed the object again\nopts=%r" % (n + 1, opts))
-            if t != texts[0]:
-                out.fail("repeat-write-text-differs", "write #%d produced different text than write #1\nopts=%r\n--- #1 ---\n%s\n--- #%d ---\n%s"
-                         % (n + 1, opts, texts[0][:1500], n + 1, t[:1500]))
-        texts.append(t)
-        before = after
+            if t != prev_text:
+                out.fail("repeat-write-text-differs", "write #%d produced different text than write #%d\nopts=%r\n--- previous ---\n%s\n--- now ---\n%s"
+                         % (n + 1, n, opts, prev_text[:1500], t[:1500]))
+        prev_text = t
         if out.violations:
-            return out
-    vers_after = [x for x in before["sections"].get("Version", []) if x["orig"].upper() == "VERS"]
-    if vers_before != vers_after:
-        out.fail("in-memory-VERS-changed", "version=%r changed the in-memory VERS item %r -> %r" % (opts.get("version"), vers_before, vers_after))
-    # truthfulness of STRT/STOP/STEP in the output
-    if len(idx) and (index_edited or stop_disagrees):
-        back = read_text(texts[0], mnemonic_case="preserve")
-        if is_raised(back):
-            out.rejected = True  # readability of the output is C01/C03/C11's business
-            out.cls("output-unreadable")
-            return out
-        w = {i.original_mnemonic.upper(): i for i in back.well}
-        why = "index-created" if not was_read else "index-edited" if index_edited else "stop-disagreed"
+            break
+        # truthfulness of STRT/STOP/STEP in this output
+        if len(idx) and (index_ever_edited or stop_disagrees):
+            back = read_text(t, mnemonic_case="preserve")
+            if is_raised(back):
+                out.rejected = True  # readability of the output is C01/C03/C11's business
+                out.cls("output-unreadable")
+                return out
+            w = {i.original_mnemonic.upper(): i for i in back.well}
+            why = ("index-created" if not was_read else "index-edited" if index_ever_edited else "stop-disagreed") + ("" if n == 0 else "|later-write")
 
-        def close(v, target):
-            try:
-                v = float(v)
-            except (TypeError, ValueError):
-                return False
-            return abs(v - target) <= 0.5e-5 + 1e-9 * abs(target) + 1e-12
+            def close(v, target):
+                try:
+                    v = float(v)
+                except (TypeError, ValueError):
+                    return False
+                return abs(v - target) <= 0.5e-5 + 1e-9 * abs(target) + 1e-12
 
-        if "STRT" in w and not close(w["STRT"].value, idx[0]):
-            out.fail("STRT-untruthful|" + why, "output STRT=%r but the first index value is %r\nopts=%r\n%s" % (w["STRT"].value, idx[0], opts, texts[0][:1200]))
-        if "STOP" in w and not close(w["STOP"].value, idx[-1]):
-            out.fail("STOP-untruthful|" + why, "output STOP=%r but the last index value is %r\nopts=%r\n%s" % (w["STOP"].value, idx[-1], opts, texts[0][:1200]))
-        if "STEP" in w:
-            if len(idx) > 1 and idx[0] != idx[-1]:
-                if not close(w["STEP"].value, idx[1] - idx[0]):
-                    out.fail("STEP-untruthful|" + why, "output STEP=%r but the first increment is %r\nopts=%r\n%s" % (w["STEP"].value, idx[1] - idx[0], opts, texts[0][:1200]))
-            else:
-                if w["STEP"].value not in ("", 0) and not close(w["STEP"].value, 0.0):
-                    out.fail("STEP-untruthful|single-sample", "single sample / constant index but STEP=%r" % (w["STEP"].value,))
-        cu = back.curves[0].unit if len(back.curves) else None
-        for m in ("STRT", "STOP", "STEP"):
-            if m in w and cu is not None and w[m].unit != cu:
-                out.fail("unit-not-aligned|" + why, "output %s unit %r, index curve unit %r\n%s" % (m, w[m].unit, cu, texts[0][:1200]))
+            ctx = "write #%d, opts=%r, rounds=%r\n%s" % (n + 1, opts, rounds, t[:1200])
+            if "STRT" in w and not close(w["STRT"].value, idx[0]):
+                out.fail("STRT-untruthful|" + why, "output STRT=%r but the first index value is %r\n%s" % (w["STRT"].value, idx[0], ctx))
+            if "STOP" in w and not close(w["STOP"].value, idx[-1]):
+                out.fail("STOP-untruthful|" + why, "output STOP=%r but the last index value is %r\n%s" % (w["STOP"].value, idx[-1], ctx))
+            if "STEP" in w:
+                if len(idx) > 1 and idx[0] != idx[-1]:
+                    if not close(w["STEP"].value, idx[1] - idx[0]):
+                        out.fail("STEP-untruthful|" + why, "output STEP=%r but the first increment is %r\n%s" % (w["STEP"].value, idx[1] - idx[0], ctx))
+                else:
+                    if w["STEP"].value not in ("", 0) and not close(w["STEP"].value, 0.0):
+                        out.fail("STEP-untruthful|single-sample", "single sample / constant index but STEP=%r" % (w["STEP"].value,))
+            cu = back.curves[0].unit if len(back.curves) else None
+            for m in ("STRT", "STOP", "STEP"):
+                if m in w and cu is not None and w[m].unit != cu:
+                    out.fail("unit-not-aligned|" + why, "output %s unit %r, index curve unit %r\n%s" % (m, w[m].unit, cu, t[:1200]))
+        if out.violations:
+            break
+    idx = np.asarray(las.curves[0].data, dtype=float) if len(las.curves) else np.array([])
+    out.cls(*["edit-" + k for k in sorted(all_kinds)])
+    if len(rounds) > 1 and any(rounds[1:]):
+        out.cls("edits-between-writes")
+    shape = "empty" if len(idx) == 0 else "single" if len(idx) == 1 else (
+        "increasing" if np.all(np.diff(idx) > 0) else "decreasing" if np.all(np.diff(idx) < 0) else "irregular")
+    out.cls("index-" + shape)
+    out.nontrivial = bool(all_kinds) or shape not in ("increasing",)
+    if not out.violations:
+        vers_after = [x for x in snapshot(las)["sections"].get("Version", []) if x["orig"].upper() == "VERS"]
+        if vers_before != vers_after:
+            out.fail("in-memory-VERS-changed", "version=%r changed the in-memory VERS item %r -> %r" % (opts.get("version"), vers_before, vers_after))
     return out
 
 
@@ -321,8 +327,15 @@ def read_cases(draw):
     w[0]["u"] = w[1]["u"] = w[2]["u"] = draw(st.sampled_from(["M", "FT", "m", ""]))
     if lastext.is_12(lastext.spec_version(spec)):
         pass
-    return {"src": {"spec": spec}, "opts": draw(inputs.WRITER_OPTS), "edits": draw(st.lists(EDIT, max_size=2)),
+    case = {"src": {"spec": spec}, "opts": draw(inputs.WRITER_OPTS), "edits": draw(st.lists(EDIT, max_size=2)),
             "writes": draw(st.integers(1, 3)), "read_kw": {"mnemonic_case": draw(st.sampled_from(["upper", "preserve"]))}}
+    if draw(st.integers(0, 2)) == 0:
+        # edit - write - edit (possibly undoing the first edit) - write ...
+        d = draw(st.sampled_from([0.25, 1.0, -0.5]))
+        undo = draw(st.sampled_from([[["index_inplace", d]], [["index_shift", d]], [["index_irregular", d]]]))
+        redo = [[e[0], -e[1]] for e in undo]
+        case["rounds"] = draw(st.sampled_from([[undo, redo], [undo, [], redo], [undo, redo, []], [[], undo, redo]]))
+    return case
 
 
 def parts(tier):
